@@ -338,13 +338,19 @@ func (r *Runner) record(c Case, obs w.Val, v Verdict, shrunk bool) {
 		r.fail(c, obs, v, "model-error", v.Bad)
 		return
 	}
+	// a finding class excuses the PROPERTY failure of a case on which the faithful model agrees with the code; it never excuses a
+	// disagreement between model and code
 	known := v.Class != "" && v.Class != "-"
 	if !v.Prop && !known {
 		s.PropFail++
 		r.failShrink(c, obs, v, "property")
-	} else if !v.Corr && !known {
+	} else if !v.Corr {
 		s.CorrFail++
-		r.failShrink(c, obs, v, "correspondence")
+		if known {
+			r.fail(c, obs, v, "correspondence", "model and implementation disagree inside finding class "+v.Class)
+		} else {
+			r.failShrink(c, obs, v, "correspondence")
+		}
 	}
 }
 
